@@ -22,9 +22,11 @@ Inductive stmt : Set :=
 | SBreak
 | SContinue
 | SReturn (l : label)                         (* l: the (traced) evaluation of the return value *)
-(* syntax only: carried through the passes so that their models can be compared structurally with the
-   real passes on programs that contain them; the semantics below gives them no rule (a run that
-   reaches one is stuck), so the theorems say nothing about such runs *)
+(* try / with: given their exception-free semantics below (atoms do not raise in this language): the
+   handlers never run, the else clause runs when the body completes, the finally clause always runs.
+   Jumps OUT OF a finally clause (which would override a pending jump) and `raise` have no rule: a
+   run that reaches them is stuck and the theorems say nothing about it; they are carried through the
+   pass models so that these can be compared structurally with the real passes. *)
 | STry (body : block) (handlers : blocks) (orelse final : block)
 | SWith (l : label) (body : block)
 | SRaise (l : label)
@@ -80,7 +82,26 @@ Fixpoint exec_stmt (n : nat) (st : stmt) (s : store) (d : decisions) {struct n} 
           end
         else
           let '(tr, o, s', d') := exec_block n' orelse s d1 in (tc ++ tr, o, s', d')
-    | STry _ _ _ _ | SWith _ _ | SRaise _ => ([], OStuck, s, d)
+    | SWith l body =>
+        let '(tr, o, s', d') := exec_block n' body s d in (l :: tr, o, s', d')
+    | STry body _ orelse final =>
+        let '(tr1, ob, s1, d1) := exec_block n' body s d in
+        let '(tr2, o2, s2, d2) :=
+          match ob with
+          | ONormal => exec_block n' orelse s1 d1
+          | _ => ([], ob, s1, d1)
+          end in
+        match o2 with
+        | OFuel | OStuck => (tr1 ++ tr2, o2, s2, d2)
+        | _ =>
+          let '(tr3, of, s3, d3) := exec_block n' final s2 d2 in
+          match of with
+          | ONormal => (tr1 ++ tr2 ++ tr3, o2, s3, d3)
+          | OFuel => (tr1 ++ tr2 ++ tr3, OFuel, s3, d3)
+          | _ => (tr1 ++ tr2 ++ tr3, OStuck, s3, d3)       (* a jump out of finally: outside the semantics *)
+          end
+        end
+    | SRaise _ => ([], OStuck, s, d)
     end
   end
 with exec_block (n : nat) (b : block) (s : store) (d : decisions) {struct n} : res :=
@@ -121,6 +142,16 @@ Inductive run_stmt : stmt -> store -> decisions -> list label -> outcome -> stor
 | RWhileRet c body orelse s d tc d1 tr s1 d2 :
     ceval c s d = (true, tc, d1) -> run_block body s d1 tr ORet s1 d2 ->
     run_stmt (SWhile c body orelse) s d (tc ++ tr) ORet s1 d2
+| RWith l body s d tr o s' d' :
+    run_block body s d tr o s' d' -> run_stmt (SWith l body) s d (l :: tr) o s' d'
+| RTryN body hs orelse final s d tr1 s1 d1 tr2 o2 s2 d2 tr3 s3 d3 :
+    run_block body s d tr1 ONormal s1 d1 -> run_block orelse s1 d1 tr2 o2 s2 d2 ->
+    run_block final s2 d2 tr3 ONormal s3 d3 ->
+    run_stmt (STry body hs orelse final) s d (tr1 ++ tr2 ++ tr3) o2 s3 d3
+| RTryJ body hs orelse final s d tr1 ob s1 d1 tr3 s3 d3 :
+    run_block body s d tr1 ob s1 d1 -> ob <> ONormal ->
+    run_block final s1 d1 tr3 ONormal s3 d3 ->
+    run_stmt (STry body hs orelse final) s d (tr1 ++ tr3) ob s3 d3
 with run_block : block -> store -> decisions -> list label -> outcome -> store -> decisions -> Prop :=
 | RNil s d : run_block BNil s d [] ONormal s d
 | RConsN st r s d tr s1 d1 tr2 o2 s2 d2 :
